@@ -910,7 +910,7 @@ func (mon) Plan(prop, tier string, seed int64) []drv.Shard {
 	if tier == "thorough" {
 		batches, n, raceBatches = 120, 600, 30
 	}
-	for i, gmp := range []string{"2", "4", "16"} {
+	for i, gmp := range []string{"2", "4", "16", "1"} {
 		a, _ := json.Marshal(shardArgs{Mode: "conc", Part: i, Count: batches, N: n})
 		out = append(out, drv.Shard{Name: "conc-gomaxprocs" + gmp, Args: a, Env: []string{"GOMAXPROCS=" + gmp}})
 		a, _ = json.Marshal(shardArgs{Mode: "conc", Part: 10 + i, Count: raceBatches, N: n / 2})
